@@ -12,6 +12,9 @@ for f in sorted(glob.glob('/verif/seeded/*/meta.json')):
             det.append('%s %s (%ss): `%s`' % (c, r['tier'], r['wall_s'], ':'.join(sig)[:70]))
         else:
             det.append('%s %s: not detected' % (c, r['tier']))
+    for key in ('status_after_repository_fix', 'status'):
+        if m.get(key):
+            det.append('note: ' + str(m[key]).replace('\n', ' ').replace('|', '/')[:160])
     what = m.get('what_changed', '').replace('\n', ' ').replace('|', '/')
     if len(what) > 230:
         what = what[:227] + '...'
